@@ -248,8 +248,12 @@ func runConfig(c *vf.Ctx, cs cfgSpec, s int, nblocks int) {
 			return
 		}
 		if ve != "" {
-			c.Inconclusive(fmt.Sprintf("config %s block %d: validator rejected produced block: %s (C02's subject)", name, no, ve))
-			return
+			// agreement of producer and validator is C02's subject; conservation is judged on the producer's own
+			// state from here on (the case is kept in the evidence, the run is not abandoned)
+			c.Count("validator_rejected_a_produced_block", 1)
+			c.Set("validator_rejection_example", map[string]interface{}{"config": name, "block": no, "error": ve, "txs": descs})
+			val.Kill()
+			val = prod
 		}
 		// (a) block granularity on the validator: full dumps
 		d, err := val.Dump(nil)
